@@ -3,15 +3,19 @@
 package main
 
 import (
+	"encoding/json"
 	"fmt"
 	"path"
 	"sort"
 	"strings"
+	"sync"
+	"time"
 	"unicode/utf8"
 
 	"github.com/anz-bank/sysl/pkg/parse"
 	"github.com/anz-bank/sysl/pkg/sysl"
 	"github.com/spf13/afero"
+	"google.golang.org/protobuf/proto"
 
 	"verifharness/common"
 )
@@ -49,6 +53,92 @@ func compile(files map[string]string, root string) (m *sysl.Module, err string) 
 		return nil, "error: " + e.Error()
 	}
 	return mod, ""
+}
+
+// ---- the real compiler on a pool of worker subprocesses (one compile at a time per process) ----
+
+type creq struct {
+	Files map[string]string `json:"files"`
+	Root  string            `json:"root"`
+}
+type crep struct {
+	Err string `json:"err,omitempty"`
+	PB  []byte `json:"pb,omitempty"`
+}
+
+func compileInWorker(line []byte) interface{} {
+	var r creq
+	if err := json.Unmarshal(line, &r); err != nil {
+		return crep{Err: "badreq"}
+	}
+	m, e := compile(r.Files, r.Root)
+	if e != "" {
+		return crep{Err: e}
+	}
+	b, err := proto.Marshal(m)
+	if err != nil {
+		return crep{Err: "marshal: " + err.Error()}
+	}
+	return crep{PB: b}
+}
+
+type compiled struct {
+	m   *sysl.Module
+	err string
+}
+
+func compileAll(ins []Input) []compiled {
+	out := make([]compiled, len(ins))
+	nw := 8
+	if len(ins) < nw {
+		nw = len(ins)
+	}
+	var wg sync.WaitGroup
+	next := make(chan int, len(ins))
+	for i := range ins {
+		next <- i
+	}
+	close(next)
+	for k := 0; k < nw; k++ {
+		wg.Add(1)
+		go func() {
+			defer wg.Done()
+			w := common.NewWorker("-worker")
+			defer w.Close()
+			for i := range next {
+				var r crep
+				var died, timedOut bool
+				var stderr string
+				for _, dl := range []time.Duration{60 * time.Second, 300 * time.Second} {
+					r = crep{}
+					died, timedOut, stderr = w.Call(creq{ins[i].Files, ins[i].Root}, &r, dl)
+					if !timedOut && !died {
+						break
+					}
+				}
+				switch {
+				case timedOut:
+					out[i] = compiled{nil, "hang"}
+				case died:
+					if len(stderr) > 300 {
+						stderr = stderr[:300]
+					}
+					out[i] = compiled{nil, "died: " + stderr}
+				case r.Err != "":
+					out[i] = compiled{nil, r.Err}
+				default:
+					m := &sysl.Module{}
+					if err := proto.Unmarshal(r.PB, m); err != nil {
+						out[i] = compiled{nil, "unmarshal: " + err.Error()}
+					} else {
+						out[i] = compiled{m, ""}
+					}
+				}
+			}
+		}()
+	}
+	wg.Wait()
+	return out
 }
 
 // got: module path -> (kind class, contexts); single: the deprecated source_context field
@@ -145,8 +235,8 @@ func walkModule(m *sysl.Module) map[string]*found {
 	return w.got
 }
 
-// Case is everything needed to re-judge one input without the generator
-type Case struct {
+// Input is everything needed to re-judge one input without the generator
+type Input struct {
 	Stream string            `json:"stream"`
 	Root   string            `json:"root"`
 	Files  map[string]string `json:"files"`
@@ -170,12 +260,11 @@ func fmtPos(cs []Ctx) string {
 }
 
 // judge reports every way in which the compiled module breaks the property on this input
-func judge(c *common.Ctx, cs Case) (got map[string]*found, cerr string) {
-	m, cerr := compile(cs.Files, cs.Root)
-	if cerr != "" {
-		return nil, cerr
+func judge(c *common.Ctx, cs Input, cm compiled) (got map[string]*found, cerr string) {
+	if cm.err != "" {
+		return nil, cm.err
 	}
-	got = walkModule(m)
+	got = walkModule(cm.m)
 	widths := map[string][]int{}
 	for n, t := range cs.Files {
 		widths[n] = lineRunes(t)
@@ -188,7 +277,15 @@ func judge(c *common.Ctx, cs Case) (got map[string]*found, cerr string) {
 			if _, ok := exp[p]; !ok {
 				order = append(order, p)
 			}
-			exp[p] = append(exp[p], d)
+			dup := false
+			for _, x := range exp[p] {
+				if x == d {
+					dup = true // one declaration inherited twice by one element (a method declared twice under one path)
+				}
+			}
+			if !dup {
+				exp[p] = append(exp[p], d)
+			}
 		}
 	}
 	fail := func(key, what string) { c.Fail(key, what, cs) }
@@ -224,7 +321,15 @@ func judge(c *common.Ctx, cs Case) (got map[string]*found, cerr string) {
 			for _, d := range ds {
 				want = append(want, fmt.Sprintf("%s:%d:%d", d.File, d.Line, d.Col))
 			}
-			fail("count:"+class, fmt.Sprintf("%s %s is declared %d time(s) at %v but carries %d location(s) %s", class, p, len(ds), want, len(f.cs), fmtPos(f.cs)))
+			key := "count:" + class
+			at := func(d *Decl, x Ctx) bool { return d.File == x.File && d.Line == x.SL && d.Col == x.SC }
+			switch {
+			case ds[0].Kind == kEvent && len(f.cs) == 1 && at(ds[0], f.cs[0]):
+				key = "count:event-redeclared-keeps-first"
+			case ds[0].Kind == kNvp && len(f.cs) == 1 && at(ds[len(ds)-1], f.cs[0]):
+				key = "count:attribute-replaced-keeps-last"
+			}
+			fail(key, fmt.Sprintf("%s %s is declared %d time(s) at %v but carries %d location(s) %s", class, p, len(ds), want, len(f.cs), fmtPos(f.cs)))
 			continue
 		}
 		for i, d := range ds {
